@@ -21,7 +21,7 @@ RULE = ('random fields of dtype complex128 / float64 / int64 / bool in C, Fortra
         'M x M grid (M >= both pupil sides), random real and complex masks on arbitrary (non-square) grids and samplings, '
         'with shifts. A case is non-trivial unless the array is 1x1 / the embedding adds nothing / a = 1, b = 0; '
         'distinct = distinct (item, input) tuples')
-ASSUMPTIONS = ['cases whose shift or Q is handed over as a float32 ndarray are compared at 1e-5 (NumPy computes with the precision of the '
+ASSUMPTIONS = ['cases whose shift or Q is handed over as a float32 ndarray are compared at 2e-4 (NumPy computes with the precision of the '
                'argument the user chose), all others at 1e-9',
                'numpy matmul / exp / scipy.fft are trusted primitives (the model plugs Float.cos/sin/sqrt into the same sums)',
                'comparison tolerance 1e-9 relative to the largest modulus of the reference (fields O(1), sizes <= 28: observed 1e-14)',
@@ -340,8 +340,8 @@ def pred_return_more(c):
     mk = _mask(c)
     fdx = c['fdx']
     plain = _T(c, f, mk)
+    sh = _sh(c, sh)      # the same container object (and hence the same arithmetic) for the reference and the tested call
     at_ref = pr.focus_fixed_sampling(f, c['dx'], c['efl'], c['lam'], fdx, mk.shape, shift=sh, method=c['method'])
-    sh = _sh(c, sh)
     mask_arg, fdx_arg = mk, fdx
     if c.get('mask_wf'):
         mask_arg = pr.Wavefront(np.asarray(mk, dtype=complex), c['lam'], fdx, 'psf')
